@@ -94,6 +94,7 @@ def main():
         },
         "engines": [
             {"name": "xtv", "path": "/verif/harness", "serves_properties": sorted(p for p in CHECKS if p != "C17"), "kind_free_text": "Rust harness (proptest TestRunner + bounded enumerators), crash-isolated worker processes, independent readers/writers, reference CLI model, replay files"},
+            {"name": "xtv-fuzz", "path": "/verif/fuzz", "serves_properties": ["C02", "C04", "C09", "C17"], "kind_free_text": "cargo-fuzz / libFuzzer targets (AddressSanitizer) whose bodies are the harness oracles; second stage of the thorough tier of these four properties"},
             {"name": "xtv-asan", "path": "/verif/harness", "serves_properties": ["C17"], "kind_free_text": "the same harness built with nightly -Zsanitizer=address (cargo feature 'asan'); cargo +nightly miri for the thorough sample"},
         ],
         "checks": checks,
